@@ -1623,8 +1623,12 @@ func buildTypeInits(projected, att *expr.AttributeExpr, viewspkg string, scope, 
 						AttributeExpr: &expr.AttributeExpr{Type: typ},
 						TypeName:      scope.GoTypeName(projected),
 					},
-					Views:      prt.Views,
-					Identifier: prt.Identifier,
+					Views: prt.Views,
+					// The source only has the attributes of the view: give
+					// it its own identifier so that the nested attributes
+					// that refer back to the projected type are not taken
+					// for it (types are copied by identifier).
+					Identifier: prt.Identifier + "; view=" + view.Name,
 				},
 			}
 
